@@ -164,13 +164,17 @@ def one_session(job):
         k = next((i for i, (x, y) in enumerate(zip(a, b)) if x != y), min(len(a), len(b)))
         res["corr"] = {**desc, "differs_in": which, "tool": a[max(0, k - 80): k + 120], "model": b[max(0, k - 80): k + 120]}
     # oracle: what is shown equals what the library produces (valid choices only)
-    if json_mode and rc == 0 and inputs and all(l.strip().isdigit() and 1 <= int(l) <= 9 for l in inputs):
+    def is_divert(l):
+        w = l.split()
+        return len(w) == 2 and w[0] == "->" and l == l.strip()
+    if json_mode and rc == 0 and inputs and all((l.strip().isdigit() and 1 <= int(l) <= 9) or is_divert(l) for l in inputs):
         ops = [["new", story_path], ["fallbacks", True], ["handler"]]
         shown = []
         sess = play.RtSession()
         for op in ops:
             sess.send(op)
         pending = list(inputs)
+        judged = True
         for _ in range(len(inputs) + 1):
             while sess.send(["can"]).get("v"):
                 c = sess.send(["cont"])
@@ -184,13 +188,23 @@ def one_session(job):
             if not cs:
                 break
             shown.append({"choices": [({"text": c["text"], "tags": c["tags"], "tag_count": len(c["tags"])} if c["tags"] else {"text": c["text"]}) for c in cs]})
-            while pending and int(pending[0]) > len(cs):
+            while pending and not is_divert(pending[0]) and int(pending[0]) > len(cs):
                 pending.pop(0)
             if not pending:
                 break
-            sess.send(["choose", int(pending.pop(0)) - 1])
+            nxt = pending.pop(0)
+            if is_divert(nxt):
+                # a divert typed at the prompt goes to exactly the path that was typed
+                if sess.send(["path", nxt.split()[1], True, []]).get("r") != "ok":
+                    judged = False      # (what the tool shows after a refused divert is left to the model tie)
+                    break
+            else:
+                sess.send(["choose", int(nxt) - 1])
         sess.close()
         tool_shown = [o for o in objs if isinstance(o, dict) and (set(o) & {"text", "tags", "choices"})]
+        if not judged:
+            # up to the refused divert the tool must have shown what the library gave
+            tool_shown = tool_shown[:len(shown)]
         if tool_shown != shown:
             k = next((i for i, (x, y) in enumerate(zip(tool_shown, shown)) if x != y), min(len(tool_shown), len(shown)))
             res["violations"].append(({**desc, "position": k, "tool_shows": tool_shown[k:k + 2], "library_gives": shown[k:k + 2],
@@ -251,6 +265,7 @@ def run(ctx):
                     ("externals", 4 if quick else 60)):
         pool += stories.generated_pool(ctx, prof, n)
     pool += stories.corpus_pool(ctx, reference=False)[:: (6 if quick else 1)]
+    pool += stories.probe_pool(ctx, "c20") * 3      # knot names that differ only in case, non-ASCII names
     docs = []
     for s in pool:
         docs.append((s["path"], s["meta"]))
@@ -268,6 +283,9 @@ def run(ctx):
             inputs = gen_inputs(rng, meta.get("knots") or [])
             if k == 0:
                 inputs = [str(rng.choice([1, 1, 2])) for _ in range(rng.choice([1, 2, 4]))]
+            if "probe_c20" in path:
+                kn = meta.get("knots") or []
+                inputs = [rng.choice(["-> " + x for x in kn] + ["1", "2"]) for _ in range(7)]
             jm = rng.random() < 0.7
             jobs.append((path, meta, inputs, jm, rng.random() < 0.5, len(jobs), ctx.scratch))
     ctx.programs = len(docs)
